@@ -14,7 +14,7 @@ CLAIMS = {
  "C17": ("Dispatch order in the method dispatcher by CFG edge-cut reachability (C17.a), arguments handed to the hook and to SafeFormat/Format incl. the %w rewrite (C17.b), dispatcher reached on all three detection routes (C17.c), bypass under Unsafe in every reachable configuration (C06.e), who writes/reads the hook variable (C17.e), containment of hook panics (C11.c, C11.g). What an installed hook renders is user code.", "§5 C17", TECH_D + " + Engine A events"),
  "C02": ("Static non-interference for explicit flows: (C02.a) no operand-derived value reaches a buffer write outside unsafe mode unless a safe override is in force, for every (kind, verb) branch and every reachable configuration. Implicit flows and the numeric renderings are not decided.", "§5 C02", TECH_AB),
  "C03": ("(C03.a) line splitting is requested exactly when unsafe data is sealed, in every reachable buffer configuration; with C01.a/I2 every envelope is escaped-and-split before it is closed. The splitter's byte arithmetic is not decided.", "§5 C03", TECH_A),
- "C04": ("(C04.a) print.go/format.go are exactly import base + recorded patch, and every function of the import base equals the standard library's fmt function of the same name (or differs from it exactly by the recorded upstream evolution); (C04.a3) after erasing the instrumentation forms every function of the fork is identical to the import base's, i.e. the recorded patch classifies output but does not change what fmt computes; (C04.b) writePadding, which the fork rewrote, emits exactly n pad bytes. A sufficient-side cross-check of the fork's own mechanism for fidelity; it says nothing about fmtsort or other Go versions.", "§5 C04", "static analysis: fork conformance — reverse application of the recorded patch, function-by-function comparison of the normalised import base with the reference fmt sources (cross-checking siblings), structural SSA rule for writePadding"),
+ "C04": ("(C04.a) print.go/format.go are exactly import base + recorded patch (fmtsort/sort.go verbatim), and every function of the import base equals the standard library's fmt function of the same name (or differs from it exactly by the recorded upstream evolution); (C04.a3) after erasing the instrumentation forms every function of the fork is identical to the import base's, i.e. the recorded patch classifies output but does not change what fmt computes; (C04.b) writePadding, which the fork rewrote, emits exactly n pad bytes. A sufficient-side cross-check of the fork's own mechanism for fidelity; it says nothing about Go versions other than the two reference toolchains.", "§5 C04", "static analysis: fork conformance — reverse application of the recorded patch, function-by-function comparison of the normalised import base with the reference fmt sources (cross-checking siblings), structural SSA rule for writePadding"),
  "C05": ("Both directions of the classification at the granularity of write events: nothing tainted outside (C02.a), no public text inside envelopes (C05.b), full rendering of safe values visible (C05.c), state restored after every leaf at every depth on every exit (C01.d).", "§5 C05", TECH_AB),
  "C06": ("The override discipline over every re-entrant path: (C06.a) every write under an effective unsafe context (own or borrowed through nested printers) is enveloped; (C05.c) safe override keeps writes visible; (C06.c) outermost wins in the four start* helpers; (C06.e) redact-specific dispatch is bypassed under Unsafe().", "§5 C06", TECH_AB),
  "C07": ("Decides the two marker patterns as regular languages (DFA construction from regexp/syntax, equivalence with start·(Σ∖{start,end})*·end and {start,end}, prefix-freeness), the replacement constants that make Redact/StripMarkers/EscapeMarkers exact and idempotent, and agreement of the string and []byte variants. Trusts Go's regexp for leftmost-first matching and ReplaceAll.", "§5 C07", "static analysis: constant folding of the pattern expressions + regular-language decision procedure (regexp/syntax program -> DFA, product-automaton equivalence)"),
